@@ -135,12 +135,27 @@ def run_property(prop, tier, hs, seed, jobs=6, mem=50, keep=False):
 def confirm(prop, h, ov, tdir, logdir, r):
     """Native replay of a candidate violation. Sets r['verdict'] to violated or inconclusive."""
     replay_path = os.path.join(X.ROOT, "replays", "%s-%s.rs" % (prop, h.name))
-    try:
-        rep, info, vals = X.playback(h, ov, tdir, logdir, replay_path)
-    except Exception as e:  # noqa
-        rep, info, vals = None, "playback error: %r" % e, None
+    if h.replay in native.INTEGRATION:
+        rep, info, vals = None, "native integration replay", None  # cheaper and more direct than a second solver run
+    else:
+        try:
+            rep, info, vals = X.playback(h, ov, tdir, logdir, replay_path)
+        except Exception as e:  # noqa
+            rep, info, vals = None, "playback error: %r" % e, None
     r["replay"] = replay_path
-    if h.replay != "playback" and vals is not None:
+    if h.replay == "none":
+        # stubs of std functions: Kani's playback cannot apply them; the solver trace is the replay artefact
+        r["verdict"] = "violated"
+        r["replay_info"] = "solver counterexample (concrete values in the replay file); no native replay for this harness"
+        r["detail"] += " | " + r["replay_info"]
+        return
+    if h.replay in native.INTEGRATION and not rep:
+        # Kani could not produce / reproduce a playback test: confirm through the real crates
+        if not os.path.exists(replay_path):
+            os.makedirs(os.path.dirname(replay_path), exist_ok=True)
+            open(replay_path, "w").write("// solver counterexample of harness %s (%s)\n// failed checks: %s\n" % (h.name, h.desc, r["detail"]))
+        rep, info = native.confirm(h, ov, vals or [], logdir, replay_path)
+    elif h.replay not in ("playback",) + tuple(native.INTEGRATION) and vals is not None:
         rep, info = native.confirm(h, ov, vals, logdir, replay_path)
     r["replay_info"] = info
     if rep:
